@@ -887,7 +887,13 @@ def check_declarations(ctx: Ctx, files: List[str]):
             if cf is None:
                 continue  # removal of a field is the business of the field-flow rules
             line = models.field_map(ci)[fname].node.lineno
-            if cf["shape"] != rf["shape"] or cf["meta"] != rf["meta"]:
+            opaque_ = [x_ for x_ in cf["meta"] if x_ not in rf["meta"] and x_.split("(")[0].split(".")[-1] in ("AfterValidator", "BeforeValidator", "PlainValidator", "WrapValidator")]
+            if cf["shape"] == rf["shape"] and opaque_ and [x_ for x_ in cf["meta"] if x_ not in opaque_] == rf["meta"]:
+                # the only difference: validators hung on the annotation as the result of a call (`AfterValidator(_validator(_check))`):
+                # whether they leave the accepted values alone is the acceptance rules' business, and they cannot read them either
+                ctx.undec("G.5", f"{ci.module.relpath}:{line} {ci.name}", f"{ci.name}.{fname} carries validators that are not plain functions ({opaque_[0][:60]}): "
+                                                                        f"what they accept / rewrite cannot be compared with the reference declaration")
+            elif cf["shape"] != rf["shape"] or cf["meta"] != rf["meta"]:
                 problems.append((line, f"{fname}: {ast.unparse(models.field_map(ci)[fname].ann)[:60]}",
                                  f"the declared type of {ci.name}.{fname} is `{ast.unparse(models.field_map(ci)[fname].ann)[:80]}`; the reference declares "
                                  f"{_show_shape(rf)}: pydantic accepts, coerces or transforms other values for this field"))
